@@ -14,7 +14,7 @@ ENV = dict(os.environ, GOFLAGS='-mod=mod', GOPROXY='off', GOSUMDB='off', GOTOOLC
 
 def run(cmd, cwd=None, timeout=1800):
     try:
-        p = subprocess.run(cmd, cwd=cwd, env=ENV, shell=isinstance(cmd, str), capture_output=True, text=True, timeout=timeout)
+        p = subprocess.run(cmd, cwd=cwd, env=ENV, shell=isinstance(cmd, str), capture_output=True, text=True, errors='replace', timeout=timeout)
         return p.returncode, p.stdout + p.stderr
     except subprocess.TimeoutExpired as e:
         return 124, 'TIMEOUT ' + str(e)
@@ -80,7 +80,7 @@ def main():
             if rc == 0:
                 env2 = dict(ENV, VERIF_REPO=wtree, VERIF_BUILD=bdir)
                 try:
-                    p = subprocess.run(['/verif/check', cid, tier], env=env2, capture_output=True, text=True, timeout=7200)
+                    p = subprocess.run(['/verif/check', cid, tier], env=env2, capture_output=True, text=True, errors='replace', timeout=7200)
                     rc, out = p.returncode, p.stdout + p.stderr
                 except subprocess.TimeoutExpired as e:
                     rc, out = 124, 'TIMEOUT ' + str(e)
